@@ -180,7 +180,7 @@ func main() {
 		QuickBudget:    quickBudget,
 		ThoroughBudget: thoroughBudget,
 		Expect: func(tier string) []string {
-			e := []string{"axis=default", "axis=copy", "axis=announced-keys", "reported=depths", "reported=staged", "reported=minimum-input-level", "seq=first=full", "restored=conjugate-invariant", "restored=ring-degree-switch", "restored=writeto-into-used", "restored=marshal-into-fresh", "seq=second=batch3-sparser-small", "seq=first=evalmod-scaled-0.5", "seq=second=evalmod-scaled-2i", "seq=res0", "seq=res1", "seq=res2", "calibration=hit", "dft=sparse=true", "dft=sparse=false",
+			e := []string{"axis=default", "axis=copy", "axis=announced-keys", "reported=depths", "mod1=sine-ignored-double-angle", "reported=staged", "reported=minimum-input-level", "seq=first=full", "restored=conjugate-invariant", "restored=ring-degree-switch", "restored=writeto-into-used", "restored=marshal-into-fresh", "seq=second=batch3-sparser-small", "seq=first=evalmod-scaled-0.5", "seq=second=evalmod-scaled-2i", "seq=res0", "seq=res1", "seq=res2", "calibration=hit", "dft=sparse=true", "dft=sparse=false",
 				"mod1type=0", "mod1type=1", "mod1type=2", "mod1da=0", "mod1da=1", "mod1da=2", "mod1da=3", "mod1inv=0", "mod1inv=5", "mod1inv=7",
 				"default=DefaultParametersSparse[0]", "default=DefaultParametersDense[0]", "defaultLogN=8", "defaultLogN=9", "defaultLogN=10", "defaultLogN=11",
 				"keys=all-generated-keys-requested", "rejected=constructor-error", "encaps=on", "encaps=off", "ringkeys=none", "ringkeys=degree-switch", "ringkeys=conjugate-invariant",
